@@ -251,7 +251,7 @@ def check(ctx):
     ctx.check(any(f"not isinstance({r}, Mapping)" in t for t in tests), "C17.R11", f"{cs.qualname}:mapping-kind", cs.node.body[0], "a mapping is merged with a non-mapping without refusal", cs, cs.node, detail="raise if the other side is not a mapping")
     ctx.check(any(f"len({w}) != len({r})" in t or f"len({r}) != len({w})" in t for t in tests), "C17.R11", f"{cs.qualname}:sequence-length", cs.node.body[0],
               "sequences of different lengths are not refused: with element-wise comparison over the shorter one, a `type` / `enum` / `anyOf` list that is a prefix of the other is merged silently and the definition differs from the inline $defs of one direction", cs, cs.node, detail="raise if len(write) != len(read)")
-    ctx.check(any(t in (f"not {w} == {r}", f"{w} != {r}", f"not ({w} == {r})", f"{r} != {w}") for t in tests), "C17.R11", f"{cs.qualname}:leaf", cs.node.body[0], "unequal leaves are not refused", cs, cs.node, detail="raise if write != read")
+    ctx.check(any(t in (f"not {w} == {r}", f"{w} != {r}", f"not ({w} == {r})", f"{r} != {w}", f"not {r} == {w}", f"not ({r} == {w})") for t in tests), "C17.R11", f"{cs.qualname}:leaf", cs.node.body[0], "unequal leaves are not refused", cs, cs.node, detail="raise if write != read")
     rec = [c for c in ast.walk(cs.node) if isinstance(c, ast.Call) and isinstance(c.func, ast.Name) and c.func.id == cs.name]
     elementwise = [c for c in rec if len(c.args) == 2 and all(isinstance(a, ast.Subscript) and norm(a.value) in (w, r) for a in c.args) and norm(c.args[0].slice) == norm(c.args[1].slice)]
     zipped = [c for c in rec if len(c.args) == 2 and all(isinstance(a, ast.Name) for a in c.args)]
